@@ -7,6 +7,7 @@ Space : (A) every string of <=3 symbols over {a, space, tab, \\x1f} + the 11 lin
 Oracle: vf.refmodels.text (explicit break table; three-valued where the statement is open).
 """
 import itertools
+import os
 
 from ..core import Partial, pmap
 from ..explore import ordered_trees
@@ -184,6 +185,8 @@ def judge(case):
                 bad('trim-not-self', f'end_only={end_only}')
             if not R.trim_ok(before, blk.lines, end_only):
                 bad('trim', f'end_only={end_only} before={before!r} after={blk.lines!r}')
+        if case.get('light'):
+            return out
         # L6 -- chunk
         emp = emptiness(enc)
         content_opts = R.ref_lines(enc)
@@ -242,7 +245,8 @@ def _run_cases(cases, part):
 
 
 def work_strings(slot):
-    idx, nslots = slot
+    idx, nslots = slot[0], slot[1]
+    thorough = len(slot) > 2 and slot[2]
     part = Partial()
     cases = []
     for i, s in enumerate(all_strings()):
@@ -263,6 +267,15 @@ def work_strings(slot):
         for leaf in ({'n': 0}, {'n': 0.0}, {'b': False}, {'b': True}, {'n': -1}, {'n': 10 ** 20}):
             for enc in (leaf, ['L', leaf], ['D', {'s': 'x'}, leaf], ['T', leaf, {'s': ''}], ['L', ['H', leaf]]):
                 cases.append({'enc': enc})
+    # SIZE: flat lists of 5..12 (thorough 14) items, every subset of positions holding a piece with a line break
+    top = 14 if thorough else 12
+    k = 0
+    for n in range(5, top + 1):
+        for mask in range(1 << n):
+            k += 1
+            if k % nslots != idx:
+                continue
+            cases.append({'enc': ['L'] + [{'s': 'a\nb'} if mask >> i & 1 else {'s': 'l'} for i in range(n)], 'light': True})
     _run_cases(cases, part)
     part.states += len(cases)
     return part
@@ -285,9 +298,10 @@ def explore(ctx):
                 'and inside a list) and every ordered content tree with <= %d nodes over 8 leaves x 4 '
                 'container kinds; each generated exactly once (pre-order construction), so states = '
                 'cases; non-trivial = anything but a single-line plain string' % max_nodes)
-    ctx.bounds = {'string_symbols': 3, 'tree_nodes': max_nodes, 'max_children': 3}
+    ctx.bounds = {'string_symbols': 3, 'tree_nodes': max_nodes, 'max_children': 3,
+                  'flat_list_items': '5..%d, every subset of positions holding a line break' % (14 if ctx.thorough else 12)}
     nslots = 16 if not ctx.thorough else 64
-    jobs = [(work_strings, (i, 4)) for i in range(4)] + \
+    jobs = [(work_strings, (i, 16, ctx.thorough)) for i in range(16)] + \
            [(work_trees, (i, nslots, max_nodes)) for i in range(nslots)]
     for part in pmap(_dispatch, jobs):
         ctx.merge(part)
